@@ -55,7 +55,8 @@ def rand_customs(rng, n, maxlen=3):
 
 def run(ctx):
     from harness.cli import c19_names, c19_files, c1819_lib as U
-    xz = U.snapshot_bins(ctx)["xz"]
+    bins = U.snapshot_bins(ctx)
+    xz = bins["xz"]
     q = ctx.quick
     rng = ctx.rng
     W = 4
@@ -99,6 +100,8 @@ def run(ctx):
         jobs.append(("MCAttrs(all kinds x flags x targets, 8 modes)", True, pool.submit(tlc.run, "MCAttrs", workers=W, timeout=900, coverage=True)))
         jobs.append(("MCAttrs(mode lattice 0..07777 x all fchown/fchmod outcomes x keep x force)", True,
                      pool.submit(tlc.run, "MCAttrs", cfg=_cfg(ctx, "mcam.cfg", big), workers=W, timeout=1500)))
+    jobs.append(("MCArgs(6 program names x <=1 token in XZ_DEFAULTS, XZ_OPT x <=2 on the command line)", True,
+                 pool.submit(tlc.run, "MCArgs", workers=2, timeout=900)))
     jobs.append(("MCExitStatus(<=6 messages)", True, pool.submit(tlc.run, "MCExitStatus", workers=1, timeout=300)))
 
     # ------------------------------------------------------------------ (R) names
@@ -154,13 +157,16 @@ def run(ctx):
     preds = {p["id"]: p for p in plans_from_tlc(ga.out)}
     if len(preds) != len(sc):
         raise MachineryError("GenAttrs predicted %d of %d scenarios\n%s" % (len(preds), len(sc), ga.out[-1500:]))
-    import shutil
-    shutil.copy(xz, os.path.join(ctx.workdir, "xz-copy"))          # executable by the unprivileged user
-    rx = U.run([xz, "-0", "-c"], input=c19_files.PLAIN)
+    payloads = {"xz": U.run([xz, "-0", "-c"], input=c19_files.PLAIN).stdout,
+                "lzma": U.run([xz, "-0", "-c", "-F", "lzma"], input=c19_files.PLAIN).stdout}
     def one(i):
-        c19_files.run_scenario(ctx, xz, sc[i], preds[sc[i]["id"]], rx.stdout, i)
+        c19_files.run_scenario(ctx, bins, sc[i], preds[sc[i]["id"]], payloads, i)
     with cf.ThreadPoolExecutor(4) as ex2:
         list(ex2.map(one, range(len(sc))))
+    used = {(s["prog"], w) for s in sc for w in ("dflt", "xzopt", "cmd") if s[w]}
+    lack = [(p, w) for p in ("xz", "unxz", "xzcat", "lzma", "unlzma", "lzcat") for w in ("dflt", "xzopt", "cmd") if (p, w) not in used]
+    if lack:
+        raise MachineryError("scenario generation left program name x option source combinations unused: %r" % lack)
     for s in sc:
         ctx.case(key=("file", json.dumps(s, sort_keys=True)))
     ctx.add_traces(len(sc))
